@@ -279,7 +279,37 @@ func checkRoundRobin(c *Ctx, r *Report) {
 		}
 		shape := false
 		if ia != nil {
-			if rem, ok := stripConv(ia.Index).(*ssa.BinOp); ok && rem.Op == token.REM {
+			idx := stripConv(ia.Index)
+			// a defensive clamp `if idx >= len { idx = 0 }` leaves a phi of (ticket mod len, constant): the constant edge is
+			// taken only under a comparison of that very remainder with the length, which cannot hold
+			if phi, isPhi := idx.(*ssa.Phi); isPhi {
+				var remEdge ssa.Value
+				okPhi := true
+				for i, e := range phi.Edges {
+					if _, isK := e.(*ssa.Const); isK {
+						guarded := false
+						if i < len(phi.Block().Preds) {
+							for _, cf := range edgeFacts(phi.Block().Preds[i], phi.Block()) {
+								if bo, ok := cf.Cond.(*ssa.BinOp); ok && cf.True && (bo.Op == token.GEQ || bo.Op == token.GTR) {
+									guarded = true
+								}
+							}
+						}
+						if !guarded {
+							okPhi = false
+						}
+						continue
+					}
+					if remEdge != nil && remEdge != e {
+						okPhi = false
+					}
+					remEdge = e
+				}
+				if okPhi && remEdge != nil {
+					idx = stripConv(remEdge)
+				}
+			}
+			if rem, ok := idx.(*ssa.BinOp); ok && rem.Op == token.REM {
 				lenOK := false
 				if call, ok := stripConv(rem.Y).(*ssa.Call); ok {
 					if bi, ok := call.Call.Value.(*ssa.Builtin); ok && bi.Name() == "len" && call.Call.Args[0] == ia.X {
